@@ -188,7 +188,7 @@ def run(ck):
     from concurrent.futures import ThreadPoolExecutor
     h = vlib.build_harness("bracesarith")
     T = ck.notes.setdefault("phase_s", {})
-    nsim, depth = (5, 8) if ck.tier == "quick" else (400, 12)
+    nsim, depth = (5, 8) if ck.tier == "quick" else (200, 12)
     jobs = {"bfs": dict(cfg="ShArith.%s.cfg" % ck.tier, workers=16, timeout=1500),
             "sim": dict(cfg="ShArith.sim.cfg", simulate=nsim, depth=depth, seed=ck.seed, timeout=1500)}
     t0 = time.time()
